@@ -3,6 +3,7 @@
 #        tools/par_sweep.sh <jobs> harmless <patch.diff>...  -- each harmless edit through all 18 checks
 # Developer helper. Runs on private copies of /verif (committed or not: the working tree as it is now) and of /repo's HEAD
 # (git worktrees, selected through VERIF_REPO), so neither /repo nor /verif/evidence is touched and one can keep working.
+# /verif is taken at its last commit (git archive HEAD); the extractor binary is the one built in /verif/vx.
 # The proof cache (build/cache, keyed by the hash of the generated unit + flags) is shared.
 J=$1; MODE=$2; shift 2
 ITEMS=("$@")
@@ -13,7 +14,8 @@ cleanup() { for k in $(seq 1 $J); do git -C /repo worktree remove --force $ROOT/
 trap cleanup EXIT
 for k in $(seq 1 $J); do
   V=$ROOT/v$k; R=$ROOT/r$k
-  rsync -a --exclude .git --exclude build --exclude 'witness/target' /verif/ $V/
+  mkdir -p $V && git -C /verif archive HEAD | tar -x -C $V   # the COMMITTED /verif: edits in progress do not leak into a sweep
+  mkdir -p $V/vx/target/release && cp /verif/vx/target/release/vx $V/vx/target/release/vx
   mkdir -p $V/build && ln -s /verif/build/cache $V/build/cache
   git -C /repo worktree add -f --detach $R HEAD >/dev/null 2>&1
   sed -i "s|path = \"/repo\"|path = \"$R\"|" $V/witness/Cargo.toml $V/sendsync/Cargo.toml
